@@ -92,11 +92,17 @@ def build_object(m: Machine, uid, spec):
     else:
         Rm = R
         meta = copy.deepcopy(spec.get("meta"))
+        pos_in, quat_in = pos.copy(), quat.copy()
+        if spec.get("layout") == "F":
+            # column-major arrays: what np.vstack((x, y, z)).T or
+            # df[["x", "y", "z"]].to_numpy() give (same values, dtype, shape)
+            pos_in = np.asfortranarray(pos_in)
+            quat_in = np.asfortranarray(quat_in)
+            m.probe_hit("built_from_column_major_arrays")
         if spec["stamped"]:
-            obj = T.PoseTrajectory3D(pos.copy(), quat.copy(), ts.copy(),
-                                     meta=meta)
+            obj = T.PoseTrajectory3D(pos_in, quat_in, ts.copy(), meta=meta)
         else:
-            obj = T.PosePath3D(pos.copy(), quat.copy(), meta=meta)
+            obj = T.PosePath3D(pos_in, quat_in, meta=meta)
         m.probe_hit("built_from_xyz_quat")
     model = TrajModel(Rm, pos, ts if spec["stamped"] else None)
     e = Entry(uid, obj, model, spec["stamped"], "ctor")
@@ -1189,6 +1195,8 @@ def gen_object_spec(rng, small=True):
                                 "se3_nd"]),
             "stamped": rng.random() < 0.7, "n": n,
             "data_seed": rng.getrandbits(32), "profile": profile}
+    if rng.random() < 0.25:
+        spec["layout"] = "F"
     if rng.random() < 0.5:
         spec["meta"] = {"frame_id": rng.choice(["map", "odom"]),
                         "tags": [rng.randrange(9), [rng.randrange(9)]]}
